@@ -154,13 +154,16 @@ impl QoSController {
     }
 
     pub fn add_resource(&mut self, resource: ResourceStructure) {
-        // the controller length and the resource count are 16-bit fields
-        self.number_of_resources = self
+        // the controller length and the resource count are 16-bit fields:
+        // refuse before anything is changed
+        let number_of_resources = self
             .number_of_resources
             .checked_add(1)
             .expect("too many RQSC resources");
-        self.length = u16::try_from(self.length as usize + resource.len())
+        let length = u16::try_from(self.length as usize + resource.len())
             .expect("RQSC controller structure too large");
+        self.number_of_resources = number_of_resources;
+        self.length = length;
         self.resource_structure.push(resource);
     }
 }
